@@ -101,6 +101,12 @@ func hostileQuery(r *Rng) string {
 		return ""
 	case x < 80:
 		return Pick(r, []string{"(", "[a-z", "\\", "*?+", ".*", "$^", "%s%d", "{{.}}", "'; drop", "\u202e", "\ufeff", "\U0010ffff"})
+	case x < 84:
+		// far beyond what the CLI's validation lets through: the engine's entry points take any string (wave 7, C10-B: a
+		// histogram of query lengths indexed past its last bucket for more than 10000 bytes, on the monitored path only)
+		u := Pick(r, []string{"a", "list files ", "é", "x\x00", "-"})
+		n := Pick(r, []int{10000, 10001, 16385, 65537})
+		return strings.Repeat(u, n/len(u)+1)[:n]
 	default:
 		return strings.Repeat(Pick(r, wordPool)+" ", r.Range(1, 60))
 	}
